@@ -123,6 +123,20 @@ def check_identity(case, ctx):
     if f["magic"] != 0xBEEF or f["bid"] != a.beacon_id or f["aes_rand"] != a.aes_rand or got_info != info:
         ctx.violation("metadata.fits", f"decrypted check-in differs: {core.short(f)}", case)
         return
+    # the same client object set up again for another id must present that id's keys, not the previous ones
+    other = (a.beacon_id + 2) % 2**31
+    try:
+        a.run(cfg, dry_run=True, beacon_id=other, user="u", computer="c", process="p")
+    except Exception as e:  # noqa: BLE001
+        ctx.violation("identity.keys", f"second run() on the same client object raised {type(e).__name__}: {e}", case)
+        return
+    fresh = cl.HttpBeaconClient()
+    fresh.run(cfg, dry_run=True, beacon_id=other, user="u", computer="c", process="p")
+    d2 = hashlib.sha256(a.aes_rand).digest()
+    if a.beacon_id != other or (a.aes_rand, a.aes_key, a.hmac_key) != (fresh.aes_rand, fresh.aes_key, fresh.hmac_key) or (a.aes_key, a.hmac_key) != (d2[:16], d2[16:]) \
+            or a.aes_rand == b.aes_rand or bytes(a.metadata.aes_rand) != a.aes_rand or a.metadata.bid != other:
+        ctx.violation("identity.keys", f"client object re-run for id {other} keeps state of id {b.beacon_id} (keys/metadata do not match a fresh client for {other})", case)
+        return
     nt = case["user"] is not None or (rid is not None and (rid % 2 or rid < 0 or rid >= 2**31))
     ctx.ok(fp=("id", rid, case["user"], case["computer"], case["process"], case["key"]), nontrivial=bool(nt), case=case,
            classes=(f"key:{case['key'][:7]}", "names:" + case["namekind"], "id:accepted"))
